@@ -93,6 +93,13 @@ def deriveCase : P Verdict := do
     if obs.params != want.params then errs := errs ++ ["C09: type parameters are not listed by name in declaration order with the argument's type (none when skipped)"]
     if obs.docs != want.docs then errs := errs ++ ["C09: type docs not captured as specified (capture_docs / docs feature / one leading space)"]
     if obs.def_ != want.def_ then errs := errs ++ ["C09: members / variants do not mirror the declaration (order, names, renames, compact, type names up to whitespace, indices, docs)"]
+    -- C17 for the derive: exactly the declared members that are neither `#[codec(skip)]` nor PhantomData markers are listed, in order
+    let memberTys : TypeDef TyExpr → List (List TyExpr) := fun d => match d with
+      | .composite fs => [fieldRefs fs]
+      | .variant vs => vs.map (fun v => fieldRefs v.fields)
+      | _ => []
+    if memberTys obs.def_ != memberTys want.def_ then
+      errs := errs ++ ["C17: the derived definition does not list exactly the declared members that are not PhantomData markers (a data-carrying member is missing, or a marker / skipped member is listed)"]
   -- C17: PhantomData members never listed
   let members : List TyExpr := match obs.def_ with
     | .composite fs => fieldRefs fs
@@ -104,7 +111,7 @@ def deriveCase : P Verdict := do
   let fuel := reg.length + 64
   let mut k := 0
   for (v, bytes) in vals do
-    match Value.decodeVal reg fuel root bytes with
+    match decodeGuarded reg fuel root bytes with
     | some (v', []) =>
       if v' != v then errs := errs ++ [s!"C03: value {k}: decoding the derived Encode output from the registry alone yields a different variant / field names / order / leaf values"]
     | some (v', r :: rs) => errs := errs ++ [s!"C03: value {k}: the registry-directed decoder does not consume the encoding exactly ({(r :: rs).length} bytes left; read {((toString (repr v')).replace "\n" " ").take 600})"]
